@@ -135,7 +135,7 @@ impl<R: Read + Seek> ReadBox<&mut R> for Avc1Box {
                     avcc,
                 });
             } else {
-                skip_bytes_to(reader, current + s)?;
+                skip_box(reader, s)?;
             }
         }
     }
